@@ -31,7 +31,7 @@ def run_entry(kind, rec, verify_tests=False):
     try:
         wd = os.path.join(tmp, "repo")
         scratch_copy(wd)
-        patch = os.path.join(CORPUS, kind, rec["name"] + ".patch")
+        patch = rec.get("patch") or os.path.join(CORPUS, kind, rec["name"] + ".patch")
         p = subprocess.run(["patch", "-p1", "-s", "-i", patch], cwd=wd, capture_output=True, text=True)
         if p.returncode != 0:
             out["status"] = "skipped-does-not-apply"
@@ -48,7 +48,7 @@ def run_entry(kind, rec, verify_tests=False):
             if rc and not findings:
                 keys.append("%s tool-error" % prop)
         out["fired"] = sorted(set(keys))
-        if kind == "mutants":
+        if kind in ("mutants", "seeded"):
             exp = rec.get("expect")
             hit = [k for k in keys if (exp is None or exp in k)]
             out["status"] = "fired" if hit else ("fired-other-key" if keys else "MISSED")
@@ -105,8 +105,22 @@ def annotate_evidence(prop):
         with concurrent.futures.ProcessPoolExecutor(max_workers=8) as ex:
             for r in ex.map(_run, jobs):
                 res.append({"name": r["name"], "kind": r["kind"], "status": r["status"], "fired": r["fired"][:3]})
+        # independently seeded breaking changes kept for this property: each must still be reported by this property's check
+        import glob
+        sjobs = []
+        for d_ in sorted(glob.glob(os.path.join(VERIF, "seeded", prop + "-*"))):
+            if os.path.exists(os.path.join(d_, "patch.diff")):
+                sjobs.append(("seeded", {"name": os.path.basename(d_), "props": [prop], "patch": os.path.join(d_, "patch.diff")}))
+        sres = []
+        if sjobs:
+            with concurrent.futures.ProcessPoolExecutor(max_workers=8) as ex:
+                for r in ex.map(_run, sjobs):
+                    sres.append({"name": r["name"], "status": r["status"], "fired": r["fired"][:3]})
         ev = os.path.join(VERIF, "evidence", prop + ".json")
         d = json.load(open(ev))
+        d["coverage"]["seeded_changes"] = {"entries": len(sres), "reported": sum(1 for r in sres if r["status"] in ("fired", "fired-other-key")),
+                                           "missed": [r["name"] for r in sres if r["status"] == "MISSED"],
+                                           "skipped": [r["name"] for r in sres if str(r["status"]).startswith("skipped")], "results": sres}
         d["coverage"]["selftest"] = {"entries": len(res), "mutants_fired": sum(1 for r in res if r["status"] in ("fired", "fired-other-key")),
                                      "mutants_missed": [r["name"] for r in res if r["status"] == "MISSED"],
                                      "benign_silent": sum(1 for r in res if r["status"] == "silent"),
